@@ -1,4 +1,4 @@
-/- Driver ops for the Cmd model (C17): `cmd.parse`, `cmd.serial`, `cmd.async`.
+/- Driver ops for the Cmd model (C17): `cmd.parse`, `cmd.serial`, `cmd.async`, `cmd.enchist`.
 
    An instruction string identifies the CONTENT of a command; the configuration may hold it any number of
    times (identical entries). Process ids in the observations are those of the instruction strings: an id
@@ -222,8 +222,35 @@ def parsed (j : Json) (async : Bool) : Except String (Except Exc (List RawComman
   | none => throw "configuration outside the modelled domain"
   | some r => pure r
 
+def optStrOf (j : Json) : Except String (Option String) :=
+  match j with
+  | .null => pure none
+  | .str s => pure (some s)
+  | _ => throw s!"encoding must be a string or null: {j.compress}"
+
+/-- A configured (not per-command) encoding: `null` or a non-empty name. -/
+def cfgEncOf (j : Json) : Except String (Option String) := do
+  match ← optStrOf j with
+  | some "" => throw "outside the model: an empty string as configured encoding"
+  | v => pure v
+
+def hopOf (j : Json) : Except String HOp := do
+  match ← (← j.getObjVal? "op").getStr? with
+  | "imp" => pure (.imp (← (← j.getObjVal? "mod").getStr?))
+  | "setCmd" => pure (.setCmdEnc (← cfgEncOf (← j.getObjVal? "v")))
+  | "setFile" => pure (.setFileEnc (← cfgEncOf (← j.getObjVal? "v")))
+  | "run" => pure (.run (← (← (← j.getObjVal? "own").getArr?).toList.mapM optStrOf))
+  | o => throw s!"unknown history op {o}"
+
 def handle (op : String) (j : Json) : Except String Json := do
   match op with
+  | "enchist" =>
+    let init ← j.getObjVal? "init"
+    let cfg : EncCfg := { cmdEnc := ← cfgEncOf (← init.getObjVal? "cmd"), fileEnc := ← cfgEncOf (← init.getObjVal? "file") }
+    let ops ← (← (← j.getObjVal? "ops").getArr?).toList.mapM hopOf
+    let fin := cfgAfter cfg ops
+    pure (Json.mkObj [("runs", arrJ (arrJ optStrJ) (runHist cfg ops)),
+                      ("final", Json.mkObj [("cmd", optStrJ fin.cmdEnc), ("file", optStrJ fin.fileEnc)])])
   | "parse" =>
     let async ← boolOf j "async"
     match ← parsed j async with
